@@ -512,3 +512,119 @@ func (c *Cond) Broadcast() {
 		c.release(s, 0)
 	}
 }
+
+// Map replaces sync.Map: a mutex-protected map; every method is one atomic step with a
+// scheduling point before it. Range visits a snapshot in an order drawn from the choice
+// stream (sync.Map promises no order).
+type Map struct {
+	mu    Mutex
+	m     map[any]any
+	order []any // insertion order: a run-independent base for the drawn permutation
+}
+
+func (m *Map) locked(f func()) {
+	m.mu.Lock()
+	defer m.mu.Unlock()
+	if m.m == nil {
+		m.m = map[any]any{}
+	}
+	f()
+}
+
+func (m *Map) drop(key any) {
+	delete(m.m, key)
+	for i, k := range m.order {
+		if k == key {
+			m.order = append(m.order[:i], m.order[i+1:]...)
+			break
+		}
+	}
+}
+
+func (m *Map) put(key, value any) {
+	if _, ok := m.m[key]; !ok {
+		m.order = append(m.order, key)
+	}
+	m.m[key] = value
+}
+
+func (m *Map) Load(key any) (value any, ok bool) {
+	m.locked(func() { value, ok = m.m[key] })
+	return
+}
+
+func (m *Map) Store(key, value any) { m.locked(func() { m.put(key, value) }) }
+
+func (m *Map) LoadOrStore(key, value any) (actual any, loaded bool) {
+	m.locked(func() {
+		if actual, loaded = m.m[key]; !loaded {
+			m.put(key, value)
+			actual = value
+		}
+	})
+	return
+}
+
+func (m *Map) LoadAndDelete(key any) (value any, loaded bool) {
+	m.locked(func() {
+		if value, loaded = m.m[key]; loaded {
+			m.drop(key)
+		}
+	})
+	return
+}
+
+func (m *Map) Delete(key any) { m.LoadAndDelete(key) }
+
+func (m *Map) Swap(key, value any) (previous any, loaded bool) {
+	m.locked(func() {
+		previous, loaded = m.m[key]
+		m.put(key, value)
+	})
+	return
+}
+
+func (m *Map) CompareAndSwap(key, old, new any) (swapped bool) {
+	m.locked(func() {
+		if v, ok := m.m[key]; ok && v == old {
+			m.m[key] = new
+			swapped = true
+		}
+	})
+	return
+}
+
+func (m *Map) CompareAndDelete(key, old any) (deleted bool) {
+	m.locked(func() {
+		if v, ok := m.m[key]; ok && v == old {
+			m.drop(key)
+			deleted = true
+		}
+	})
+	return
+}
+
+func (m *Map) Range(f func(key, value any) bool) {
+	var keys []any
+	m.locked(func() { keys = append(keys, m.order...) })
+	for i := len(keys) - 1; i > 0; i-- {
+		j := Draw(i + 1)
+		keys[i], keys[j] = keys[j], keys[i]
+	}
+	for _, k := range keys {
+		v, ok := m.Load(k)
+		if !ok {
+			continue
+		}
+		if !f(k, v) {
+			return
+		}
+	}
+}
+
+func (m *Map) Clear() {
+	m.locked(func() {
+		m.m = map[any]any{}
+		m.order = nil
+	})
+}
